@@ -829,8 +829,23 @@ def _lit_test(g: Term) -> Optional[str]:
 
 def R4(ctx: Ctx) -> RuleResult:
     r = RuleResult('R4', 'split_and work list: literal true skipped, literal false raises ValueError, conjunctions push both operands, everything else is emitted once after the pre-split transformation')
-    fi = ctx.model.func('hpl.rewrite', '_split_and_expr', 'R4')
     ev = rewrite_eval(ctx)
+    if ctx.model.module('hpl.rewrite', 'R4').functions.get('_split_and_expr') is None:
+        # the splitter is written out in the public entry point: one work list per kind of argument
+        efi = ctx.model.func('hpl.rewrite', 'split_and', 'R4')
+        x = Sym('x')
+        n = 0
+        for o in ev.run(efi, {efi.params()[0]: x}):
+            if o.kind != 'return':
+                continue
+            pred = next((pol for t, pol in norm_guards(o.guards) if isinstance(t, Attr) and t.base == x and t.name == 'is_predicate'), None)
+            for lp in [e for e in o.effects if isinstance(e, Loop)]:
+                n += 1
+                _r4_loop(r, efi, lp, Attr(x, 'condition') if pred else x, False)
+        if not n:
+            raise AnalysisError('R4', 'function hpl.rewrite._split_and_expr not found (anchor vanished) and split_and has no work-list loop of its own')
+        return r
+    fi = ctx.model.func('hpl.rewrite', '_split_and_expr', 'R4')
     phi = Sym('phi', 'HplExpression')
     outs = ev.run(fi, {'phi': phi})
     loops = [e for o in outs for e in o.effects if isinstance(e, Loop)]
@@ -848,7 +863,11 @@ def R4(ctx: Ctx) -> RuleResult:
                 gen_mode = True
     if not loops:
         raise AnalysisError('R4', '_split_and_expr: no work-list loop found')
-    lp = loops[0]
+    _r4_loop(r, fi, loops[0], phi, gen_mode)
+    return r
+
+
+def _r4_loop(r: RuleResult, fi, lp: Loop, phi: Term, gen_mode: bool) -> None:
     if not (isinstance(lp.iter, TupleT) and lp.iter.items == (phi,)):
         r.fail('_split_and_expr:start', f'work list does not start with the input: {lp.iter!r}', fi.where)
     seen = {'true': False, 'false': False, 'and': False, 'emit': False}
@@ -903,7 +922,6 @@ def R4(ctx: Ctx) -> RuleResult:
             r.fail('_split_and_expr:path', f'unrecognised path [{guards_repr(gs)}]', fi.where)
     for k, label in (('true', 'literal true skipped'), ('false', 'literal false -> ValueError'), ('and', 'conjunction: both operands pushed'), ('emit', 'other: emitted once')):
         (r.ok(label) if seen[k] else r.fail(f'_split_and_expr:{k}', f'missing case: {label}', fi.where))
-    return r
 
 
 # ------------------------------------------------------------------------ R5
@@ -1023,6 +1041,8 @@ def R4b(ctx: Ctx) -> RuleResult:
             r.fail('split_and:shortcut', f'split_and takes a shortcut under {guards_repr(tuple(extra))[:80]} and returns {str(v)[:50]}: vacuous predicates (the contradiction included) must go through the splitter, which raises ValueError for a false conjunct', fi.where)
         elif _fname(v) == '_split_and_expr' and v.args == (want,):
             r.ok(f'split_and[{"predicate" if pred else "expression"}] -> _split_and_expr({want!r})')
+        elif [e for e in o.effects if isinstance(e, Loop)] and all(isinstance(e.iter, TupleT) and e.iter.items == (want,) for e in o.effects if isinstance(e, Loop)):
+            r.ok(f'split_and[{"predicate" if pred else "expression"}]: work list over [{want!r}] (checked by R4)')
         else:
             r.fail('split_and:delegate', f'unexpected result {desc}', fi.where)
     for name, kind in (('get_conjuncts', 'and'), ('get_disjuncts', 'or')):
